@@ -2207,12 +2207,82 @@ XSLTEngineImpl::cloneToResultTree(
         case XalanNode::ATTRIBUTE_NODE:
             if (isElementPending() == true)
             {
-                addResultAttribute(
-                        getPendingAttributesImpl(),
-                        node.getNodeName(),
-                        node.getNodeValue(),
-                        true,
-                        locator);
+                const XalanDOMString&   theAttributeName = node.getNodeName();
+                const XalanDOMString&   theAttributeNamespace = node.getNamespaceURI();
+
+                const XalanDOMString::size_type     theColonIndex =
+                    indexOf(theAttributeName, XalanUnicode::charColon);
+
+                const XalanDOMString*   theBoundNamespace = 0;
+
+                if (theAttributeNamespace.empty() == false &&
+                    theColonIndex < theAttributeName.length() &&
+                    equals(theAttributeNamespace, DOMServices::s_XMLNamespaceURI) == false)
+                {
+                    // The attribute is in a namespace (other than the one of xml:lang
+                    // etc.), so the prefix it is written with must be bound to that
+                    // namespace in the result.
+                    const ECGetCachedString     thePrefixGuard(*m_executionContext);
+
+                    XalanDOMString&     thePrefix = thePrefixGuard.get();
+
+                    substring(theAttributeName, thePrefix, 0, theColonIndex);
+
+                    theBoundNamespace = getResultNamespaceForPrefix(thePrefix);
+
+                    if (theBoundNamespace == 0)
+                    {
+                        // The prefix is free, so declare it...
+                        createAndAddNamespaceResultAttribute(
+                            *m_executionContext,
+                            thePrefix,
+                            theAttributeNamespace);
+                    }
+                }
+
+                if (theBoundNamespace == 0 ||
+                    *theBoundNamespace == theAttributeNamespace)
+                {
+                    addResultAttribute(
+                            getPendingAttributesImpl(),
+                            theAttributeName,
+                            node.getNodeValue(),
+                            true,
+                            locator);
+                }
+                else
+                {
+                    // The prefix means something else in the result.  Use a prefix
+                    // that is bound to the namespace, or make one up.
+                    const XalanDOMString* const     theOtherPrefix =
+                        getResultPrefixForNamespace(theAttributeNamespace);
+
+                    if (theOtherPrefix != 0 && theOtherPrefix->empty() == false)
+                    {
+                        const ECGetCachedString     theNameGuard(*m_executionContext);
+
+                        XalanDOMString&     theNewName = theNameGuard.get();
+
+                        theNewName = *theOtherPrefix;
+                        theNewName += XalanUnicode::charColon;
+                        theNewName += node.getLocalName();
+
+                        addResultAttribute(
+                                getPendingAttributesImpl(),
+                                theNewName,
+                                node.getNodeValue(),
+                                false,
+                                locator);
+                    }
+                    else
+                    {
+                        createFixedUpResultAttribute(
+                            *m_executionContext,
+                            node.getLocalName(),
+                            theAttributeNamespace,
+                            node.getNodeValue());
+                    }
+                }
             }
             else
             {
